@@ -193,7 +193,10 @@ def run(ctx):
         seq = []
         for j in range(rng.randrange(1, 7)):
             mode = rng.choice(["a", "a", "a", "w", "w", "x", "", "A"])
-            seq.append((small_tree(rng, fmt=fmt), mode))
+            d = small_tree(rng, fmt=fmt)
+            if rng.random() < 0.1:
+                d = {} if fmt != "foam" or rng.random() < 0.5 else {"_meta": {"a": 1}, "_tag": 7}     # nothing (public) to write
+            seq.append((d, mode))
         alias = {}
         for j, (d, mode) in enumerate(seq):
             subs = [k for k, v in d.items() if isinstance(v, dict)]
